@@ -45,6 +45,7 @@ def prio_impl(c):
     subs = {}
     consulted = []
     answers = {}
+    selfrem = set()
 
     def sub(n):
         if n not in subs:
@@ -52,6 +53,8 @@ def prio_impl(c):
             class S:
                 def attach_stream(self, stream, circuits):
                     consulted.append(n)
+                    if n in selfrem:
+                        pa.remove_attacher(self)      # an attacher that takes itself out while it is being asked
                     return answers.get(n)
 
                 def attach_stream_failure(self, stream, fail):
@@ -72,10 +75,32 @@ def prio_impl(c):
         else:
             answers.clear()
             answers.update(op[1])
+            selfrem.clear()
+            selfrem.update(op[2] if len(op) > 2 else [])
             del consulted[:]
             r = pa.attach_stream(None, {})
             out.append([list(consulted), r])
     return out
+
+
+def prio_expand(c):
+    """an attacher that removes itself while it is being asked: for the model and the statement, the question and then
+    the removal of every self-remover that was reached (marked `rem!`: their acknowledgement is not an observation)"""
+    if not any(op[0] == 'ask' and len(op) > 2 and op[2] for op in c['ops']):
+        return c
+    ops = []
+    for op in c['ops']:
+        if op[0] == 'ask' and len(op) > 2 and op[2]:
+            ops.append(['ask', op[1]])
+            seen = prio_spec({'ops': [o if o[0] != 'rem!' else ['rem', o[1]] for o in ops]})[-1][0]
+            ops += [['rem!', a] for a in seen if a in op[2]]
+        else:
+            ops.append(op)
+    return {'api': 'prio', 'ops': ops}
+
+
+def prio_drop(c, outs):
+    return [o for op, o in zip(c['ops'], outs) if op[0] != 'rem!']
 
 
 def prio_lines(c):
@@ -83,7 +108,7 @@ def prio_lines(c):
     for op in c['ops']:
         if op[0] == 'add':
             lines.append('add %d %d' % (op[1], op[2]))
-        elif op[0] == 'rem':
+        elif op[0] in ('rem', 'rem!'):
             lines.append('rem %d' % op[1])
         else:
             lines.append('ask ' + (','.join('%d=%d' % kv for kv in sorted(op[1].items())) or '-'))
@@ -99,7 +124,7 @@ def prio_spec(c):
             latest[op[1]] = entries[-1]
             n += 1
             out.append('ok')
-        elif op[0] == 'rem':
+        elif op[0] in ('rem', 'rem!'):
             if op[1] in latest:
                 latest.pop(op[1])[2] = None
                 out.append('ok')
@@ -130,6 +155,16 @@ def prio_cases(tier):
                     answers = {} if who == n else {10 + who: 70 + who}
                     ops = adds + [['rem', 10 + r] for r in removed] + [['ask', answers], ['ask', {10 + i: 70 + i for i in range(n)}]]
                     cases.append({'api': 'prio', 'ops': ops})
+    # attachers that take themselves out while they are being asked (alone, first, in the middle, several)
+    for n in (2, 3):
+        for ps in itertools.product(prios, repeat=n):
+            adds = [['add', 10 + i, p] for i, p in enumerate(ps)]
+            for k in range(1, n + 1):
+                for sr in itertools.combinations(range(n), k):
+                    for who in range(n + 1):
+                        answers = {} if who == n else {10 + who: 70 + who}
+                        full = {10 + i: 70 + i for i in range(n)}
+                        cases.append({'api': 'prio', 'ops': adds + [['ask', answers, [10 + i for i in sr]], ['ask', full], ['ask', {}]]})
     # the same attacher added twice, removed once; removing an unknown attacher
     cases.append({'api': 'prio', 'ops': [['add', 10, 2], ['add', 11, 1], ['add', 10, 0], ['rem', 10], ['ask', {10: 5, 11: 6}], ['rem', 10], ['rem', 12]]})
     return cases
@@ -145,7 +180,7 @@ def run_cases(cases, drv, tier):
             pd = common.Driver('Prio')
             lines, spans = [], []
             for c in pr:
-                ls = prio_lines(c)
+                ls = prio_lines(prio_expand(c))
                 spans.append((len(lines), len(ls)))
                 lines += ls
             outs = pd.run(lines)
@@ -161,8 +196,9 @@ def run_cases(cases, drv, tier):
                         model.append([[] if seen == '-' else [int(x) for x in seen.split(',')], None if r == 'none' else int(r)])
                     else:
                         model.append(o)
+                model = prio_drop(prio_expand(c), model)
                 corr_ok = im == model
-            spec = prio_spec(c)
+            spec = prio_drop(prio_expand(c), prio_spec(prio_expand(c)))
             res.append(common.Result(c, im, model, spec, corr_ok=corr_ok, prop_ok=(im == spec), in_h=True,
                                      nontrivial=len([o for o in c['ops'] if o[0] == 'add']) >= 2, tags=['priority-attacher']))
     return res
